@@ -39,11 +39,18 @@ void h_send_ltr(void) {
     is0.mapper_known = 1;
 #endif
     v_build_state(&st, &is0, g_ctx);
-    uint8_t *f = in.frame;
+    V_EXACT_OBJECT(f, in.frame, V_MTU_FIXED);
     st.mapper_seq = v_be16(f + 30);                /* established by the caller (parseQueryLargeTlv) */
     V_ASSUME(in.allocs0 < 1000 && in.tx0 < 1000);
     g_led.allocs = in.allocs0; g_led.tx_attempts = in.tx0; g_req.tx_base = in.tx0;
-    const uint8_t *data = in.null_data ? (const uint8_t *)0 : in.data;
+    /* the property's bytes: an object of exactly dataSize bytes (contents of a fresh allocation are arbitrary in the
+     * verifier; natively they are copied from the input record) */
+    uint8_t *data_obj = (uint8_t *)malloc(in.size ? in.size : 1);
+    V_ASSUME(data_obj != (uint8_t *)0);
+#ifdef V_REPLAY
+    memcpy(data_obj, in.data, in.size);
+#endif
+    const uint8_t *data = in.null_data ? (const uint8_t *)0 : data_obj;
     g_req.kind = V_K_QLTV; g_req.seq = v_be16(f + 30);
     for (int b = 0; b < 6; b++) { g_req.real_src.a[b] = f[24 + b]; g_req.eth_src.a[b] = f[6 + b]; }
     g_req.lt_data = (in.size == 0) ? (const uint8_t *)0 : data; g_req.lt_size = in.size; g_req.lt_off = in.off; g_req.lt_fault = 0;
@@ -89,7 +96,7 @@ void h_parse_qlt(void) {
     V_ASSUME(ST_SHAPE(&st));
     V_ASSUME(in.allocs0 < 1000 && in.tx0 < 1000);
     g_led.allocs = in.allocs0; g_led.tx_attempts = in.tx0; g_req.tx_base = in.tx0;
-    uint8_t *f = in.frame;
+    V_EXACT_OBJECT(f, in.frame, V_MTU_FIXED);
     uint8_t type = f[32];
     uint16_t off = v_be16(f + 34);
     g_req.kind = V_K_QLTV; g_req.seq = v_be16(f + 30);
